@@ -47,6 +47,22 @@ func mkOrigin(md protoreflect.MessageDescriptor, o origin) (t triple, ok bool) {
 	default:
 		p := enum.NewGo(md)
 		t = triple{fast: p.ProtoReflect(), slow: mi.MessageOf(p), dyn: dynamicpb.NewMessage(md)}
+		// "new+set<N>": a oneof currently holding member N, so that its message-typed siblings are unpopulated
+		if strings.HasPrefix(o.Base, "new+set") {
+			var n int
+			fmt.Sscanf(o.Base, "new+set%d", &n)
+			fd := md.Fields().ByNumber(protoreflect.FieldNumber(n))
+			if fd == nil {
+				return t, false
+			}
+			for _, m := range []protoreflect.Message{t.fast, t.slow, t.dyn} {
+				if fd.Kind() == protoreflect.MessageKind {
+					m.Set(fd, m.NewField(fd))
+				} else {
+					m.Set(fd, sampleValue(fd, 0))
+				}
+			}
+		}
 	}
 	for _, n := range o.Chain {
 		fd := t.fast.Descriptor().Fields().ByNumber(protoreflect.FieldNumber(n))
@@ -92,6 +108,29 @@ func origins(md protoreflect.MessageDescriptor, maxChain int) []origin {
 		out = append(out, origin{Base: b})
 	}
 	rec(md, nil)
+	// oneofs holding a sibling of a message-typed member
+	ods := md.Oneofs()
+	for i := 0; i < ods.Len(); i++ {
+		od := ods.Get(i)
+		if od.IsSynthetic() {
+			continue
+		}
+		for j := 0; j < od.Fields().Len(); j++ {
+			mfd := od.Fields().Get(j)
+			if mfd.Kind() != protoreflect.MessageKind {
+				continue
+			}
+			for k := 0; k < od.Fields().Len(); k++ {
+				sib := od.Fields().Get(k)
+				if sib.Number() == mfd.Number() {
+					continue
+				}
+				b := fmt.Sprintf("new+set%d", sib.Number())
+				out = append(out, origin{Base: b}, origin{Base: b, Chain: []int32{int32(mfd.Number())}})
+				break
+			}
+		}
+	}
 	return out
 }
 
@@ -402,8 +441,9 @@ func judgeMethods(h *hz.H, md protoreflect.MessageDescriptor, o origin, cur prot
 		mo, err = meth.Marshal(protoiface.MarshalInput{Message: t.fast, Buf: []byte{7}})
 		out = mo.Buf
 	})
-	if p != nil || err != nil || sz != 0 || !bytes.Equal(out, []byte{7}) {
-		report("ProtoMethods.Size/Marshal", nil, fmt.Sprintf("fast-path Size/Marshal on %s (origin %s %v): panic=%v err=%v size=%d buf=%x; want size 0 and no bytes", cur.FullName(), o.Base, o.Chain, p, err, sz, out))
+	ref, _ := proto.MarshalOptions{Deterministic: true}.Marshal(t.dyn.Interface())
+	if p != nil || err != nil || sz != len(ref) || !bytes.Equal(out, append([]byte{7}, ref...)) {
+		report("ProtoMethods.Size/Marshal", nil, fmt.Sprintf("fast-path Size/Marshal on %s (origin %s %v): panic=%v err=%v size=%d buf=%x; want size %d and bytes 07%x", cur.FullName(), o.Base, o.Chain, p, err, sz, out, len(ref), ref))
 	}
 }
 
